@@ -66,6 +66,13 @@ func main() {
 			os.Exit(2)
 		}
 		os.Exit(core.Replay(p, e, os.Args[3]))
+	case "trace":
+		e, err := core.LoadEnv(os.Args[3])
+		if err != nil {
+			fmt.Fprintln(os.Stderr, err)
+			os.Exit(2)
+		}
+		os.Exit(core.TraceRun(p, e, atoi(os.Args[4])))
 	case "hashes":
 		if len(os.Args) != 6 {
 			usage()
